@@ -140,6 +140,32 @@ func vh_cache_resolution() {
 	vassert(la == "" && ch != nil && err == tcpip.ErrWouldBlock, "an unknown next hop makes the caller wait (nothing is reported)")
 	vassert(vghostGet("go") == 1, "a resolution goroutine is started")
 	e := c.cache[k]
+	// a second operation needing the same next hop while resolution is pending waits on
+	// the same entry: no second goroutine, and it is woken with the first
+	var w2 sleep.Waker
+	la1, ch1, err1 := c.get(k, res, "", nil, &w2)
+	vassert(la1 == "" && ch1 != nil && err1 == tcpip.ErrWouldBlock && vghostGet("go") == 1, "a second waiter joins the pending resolution")
+	if vnBool("evict") {
+		// the ring wraps onto the pending entry: its waiters must not be left hanging
+		for i := range c.entries {
+			if &c.entries[i] == e {
+				c.next = i
+			}
+		}
+		k2 := vhKey("k2")
+		vassume(k2 != k)
+		c.add(k2, tcpip.LinkAddress(vnString("mac2", 6)))
+		vassert(w.IsAsserted() && w2.IsAsserted(), "waiters of a pending entry whose slot is recycled are woken")
+		closed := false
+		select {
+		case <-ch:
+			closed = true
+		default:
+		}
+		vassert(closed, "and its wait channel is closed")
+		vreach("evicted-pending")
+		return
+	}
 	replied := vnBool("replied")
 	if replied {
 		c.add(k, tcpip.LinkAddress(vnString("mac", 6)))
@@ -149,14 +175,53 @@ func vh_cache_resolution() {
 		vassert(res.reqs <= 1, "after the reply no further request is sent")
 		la2, _, err2 := c.get(k, res, "", nil, &w)
 		vassert(err2 == nil && la2 == c.cache[k].linkAddr, "the waiting operation proceeds with the learned address")
-		vassert(w.IsAsserted(), "the waiter is woken")
+		vassert(w.IsAsserted() && w2.IsAsserted(), "every waiter is woken")
 		vreach("resolved")
 		return
 	}
 	vassert(res.reqs == 3, "a request is sent at the start of each of exactly three rounds")
 	vassert(e.s == failed, "after the retry budget the entry is failed")
-	vassert(w.IsAsserted(), "the waiter is woken")
+	vassert(w.IsAsserted() && w2.IsAsserted(), "every waiter is woken")
 	_, _, err3 := c.get(k, res, "", nil, &w)
 	vassert(err3 == tcpip.ErrNoLinkAddress, "afterwards the lookup fails with a no-link-address error")
 	vreach("failed")
+}
+
+// Route.Resolve asks for the link address of the next hop: the gateway when the route has
+// one, the destination itself otherwise; nothing is asked when no resolution is needed.
+func vh_route_resolve() {
+	s := VHStack()
+	link := &VHLink{Mtu: 1500, Addr: "\x02\x00\x00\x00\x00\x01", Caps: CapabilityResolutionRequired}
+	nic := VHNIC(s, 1, link)
+	lc := &VHLinkCache{Link: tcpip.LinkAddress(vnString("mac", 6))}
+	if vnBool("pending") {
+		lc.Err = tcpip.ErrWouldBlock
+		lc.Link = ""
+	}
+	local, remote := vhAddr4("local"), vhAddr4("remote")
+	r := VHRoute(nic, &VHNet{Mtu: 1480, Ttl: 64, Nic: 1}, 0x0800, local, remote, lc)
+	if vnBool("gateway") {
+		r.NextHop = vhAddr4("gw")
+		vassume(r.NextHop != remote)
+		vreach("gateway")
+	}
+	var w sleep.Waker
+	_, err := r.Resolve(&w)
+	if remote == local && r.NextHop == "" {
+		vassert(err == nil && len(lc.Asked) == 0 && r.RemoteLinkAddress == r.LocalLinkAddress, "a packet to the interface's own address needs no resolution")
+		vreach("self")
+		return
+	}
+	want := remote
+	if r.NextHop != "" {
+		want = r.NextHop
+	}
+	vassert(len(lc.Asked) == 1 && lc.Asked[0] == want, "exactly the next hop (gateway if any, else the destination) is resolved")
+	if lc.Err != nil {
+		vassert(err == lc.Err && r.RemoteLinkAddress == "", "while resolution is pending no link address is used")
+		vreach("pending")
+	} else {
+		vassert(err == nil && r.RemoteLinkAddress == lc.Link, "the resolved address becomes the frame's destination")
+		vreach("resolved")
+	}
 }
